@@ -14,7 +14,8 @@ for c, tu in sorted(tus.items()):
         if cfront.basename(fn.get('_locfile') or fn.get('_file')) != c:
             continue
         h, names = cfront.skeleton(fn)
-        out.setdefault(c, {})[name] = {'skeleton': h, 'names': names}
+        out.setdefault(c, {})[name] = {'skeleton': h, 'names': names, 'tokens': cfront.skeleton_tokens(fn)}
         n += 1
-json.dump(out, open(os.path.join(VERIF, 'rebverif', 'refnames.json'), 'w'), indent=0, sort_keys=True)
+    out.setdefault(c, {})['__statics__'] = cfront.statics_signature(tu)
+json.dump(out, open(os.path.join(VERIF, 'rebverif', 'refnames.json'), 'w'), separators=(',', ':'), sort_keys=True)
 print('refnames.json: %d functions in %d files' % (n, len(out)))
